@@ -1,3 +1,149 @@
-From ZV Require Import Base.Bytes Base.Res Base.Sig C08.Model C08.Spec.
+(* C08/Proofs.v — the statements exported to Properties/C08.v: witnesses for the refuted laws, the summary theorem
+   for cases outside the known classes, and a concrete instance beside each theorem. *)
+From ZV Require Import Base.Bytes Base.Res Base.Sig C08.Model C08.Spec C08.Algebra C08.SigFacts C08.ValueFacts C08.Order
+     C08.Clone C08.Conv.
+
+(* some values *)
+Definition qnan : value := VF64 false 9221120237041090560.        (* 0x7ff8000000000000 *)
+Definition f_one : value := VF64 false 4607182418800017408.       (* 1.0 *)
+Definition f_two : value := VF64 false 4611686018427387904.       (* 2.0 *)
+Definition arr_d (x : value) : value := VArray SF64 [x].
+Definition nested : value :=
+  VDict SStr SVariant [(VStr (B "a"), VValue (VArray SU8 [VU8 1; VU8 2])); (VStr (B "b"), VValue (VStruct [VF64 true 0; VSig (SArray SU8)]))].
+Definition nested' : value :=
+  VDict SStr SVariant [(VStr (B "a"), VValue (VArray SU8 [VU8 1; VU8 2])); (VStr (B "b"), VValue (VStruct [VF64 false 0; VSig (SArray SU8)]))].
+
+(* ---------------------------------------------------------------- refuted ---- *)
 Lemma eq_refl_refuted : exists v, veq v v = false.
-Proof. exists (VF64 false 9221120237041090560%N). vm_compute. reflexivity. Qed.
+Proof. exists qnan. vm_compute. reflexivity. Qed.
+
+Lemma ord_consistent_refuted :
+  (exists a b, has_nan a = false /\ has_nan b = false /\ vcmp a b = Eq /\ veq a b = false) /\   (* signatures *)
+  (exists a b, wfb a = true /\ wfb b = true /\ has_nan a = false /\ has_nan b = false /\ vcmp a b = Eq /\ veq a b = false) /\
+  (exists a, vcmp a a = Eq /\ veq a a = false).                                                  (* NaN *)
+Proof.
+  split; [|split].
+  - exists (VSig SU8), (VSig SBool). vm_compute. auto.
+  - exists (VArray SU8 []), (VArray SBool []). vm_compute. repeat split; reflexivity.
+  - exists qnan. vm_compute. auto.
+Qed.
+
+Lemma ord_trans_refuted :
+  (exists a b c, vcmp a b = Eq /\ vcmp b c = Eq /\ vcmp a c = Lt /\ has_nan a = false /\ has_nan b = false /\ has_nan c = false) /\
+  (exists a b c, vcmp a b = Eq /\ vcmp b c = Eq /\ vcmp a c = Lt /\ any_clash [a; b; c] = false).
+Proof.
+  split.
+  - exists (VSig (SStruct [SU8])), (VSig SU8), (VSig (SStruct [SU8; SU8])). vm_compute. repeat split; reflexivity.
+  - exists (arr_d f_one), (arr_d qnan), (arr_d f_two). vm_compute. repeat split; reflexivity.
+Qed.
+
+Lemma pcmp_refuted : exists a b, vpcmp a b = None /\ vpcmp a b <> Some (vcmp a b).
+Proof. exists (arr_d qnan), (arr_d f_one). vm_compute. split; [reflexivity|discriminate]. Qed.
+
+(* whatever number dup(2) returns, as long as it is not the number of the (still open) original *)
+Lemma owned_fd_refuted : forall os o n m, os 0%nat = Some m -> m <> n ->
+  try_to_owned os (VFd o n) 0 = Ok (VFd true m, 1%nat) /\ veq (VFd true m) (VFd o n) = false.
+Proof.
+  intros os o n m H Hn. unfold try_to_owned. simpl. unfold dup. rewrite H. simpl. split; [reflexivity|].
+  apply Z.eqb_neq. exact Hn.
+Qed.
+
+Lemma clone_nan_refuted : exists v, forall os k, try_clone os v k = Ok (v, k) /\ veq v v = false.
+Proof. exists (arr_d qnan). intros. split; reflexivity. Qed.
+
+Lemma conv_tuple_variant_refuted :
+  (exists t x, wt t x = true /\ exists y, from_value t (into_value x) = Ok y /\ y <> x) /\
+  (exists t x, wt t x = true /\ wfb (into_value x) = false) /\
+  (exists t x, wt t x = true /\ from_value t (into_value x) = Err EIncorrectType).
+Proof.
+  split; [|split].
+  - exists (SStruct [SVariant]), (XTup [XVal (VU8 1)]). split; [reflexivity|].
+    exists (XTup [XVal (VValue (VU8 1))]). split; [reflexivity|discriminate].
+  - exists (SArray (SStruct [SVariant])), (XVec (SStruct [SVariant]) [XTup [XVal (VU8 1)]]). split; reflexivity.
+  - exists (SStruct [SStruct [SVariant]]), (XTup [XTup [XVal (VU8 1)]]). split; reflexivity.
+Qed.
+
+(* a consequence of Signature::cmp for Dict: the second insert overwrites the first entry's value, keeping its key *)
+Lemma dict_sigkey_refuted :
+  exists d1 d2, dict_append (VDict SSig SU8 []) (VSig SU8) (VU8 1) = Ok d1 /\
+                dict_append d1 (VSig SBool) (VU8 2) = Ok d2 /\ d2 = VDict SSig SU8 [(VSig SU8, VU8 2)].
+Proof. eexists. eexists. vm_compute. repeat split; reflexivity. Qed.
+
+(* ---------------------------------------------------------------- outside the known classes ---- *)
+Lemma Known_inv a b c : Known_C08 [a; b; c] = false ->
+  (nf a /\ nf b /\ nf c) /\
+  (clash a a = false /\ clash a b = false /\ clash a c = false /\ clash b a = false /\ clash b b = false /\
+   clash b c = false /\ clash c a = false /\ clash c b = false /\ clash c c = false) /\
+  (has_fd a = false /\ has_fd b = false /\ has_fd c = false).
+Proof.
+  unfold Known_C08, any_clash, nf. simpl. rewrite !orb_false_iff. intuition.
+Qed.
+
+Theorem laws_partial : forall a b c, Known_C08 [a; b; c] = false ->
+  (* == *)
+  veq a a = true /\ veq a b = veq b a /\ (veq a b = true -> veq b c = true -> veq a c = true) /\
+  (* cmp *)
+  vcmp b a = CompOpp (vcmp a b) /\ T4 (vcmp a b) (vcmp b c) (vcmp a c) /\ (vcmp a b = Eq <-> veq a b = true) /\
+  vpcmp a b = Some (vcmp a b) /\
+  (* hash *)
+  (veq a b = true -> vhash a = vhash b) /\
+  (* clone, owned *)
+  (forall os k, try_clone os a k = Ok (a, k) /\ try_to_owned os a k = Ok (a, k)) /\
+  (* signature *)
+  (wfb a = true -> has_type (value_signature a) a).
+Proof.
+  intros a b c K. apply Known_inv in K as ((Na & Nb & Nc) & (Caa & Cab & Cac & Cba & Cbb & Cbc & Cca & Ccb & Ccc) & (Fa & Fb & Fc)).
+  repeat split.
+  - apply veq_refl. exact Na.
+  - apply veq_sym.
+  - apply veq_trans.
+  - apply vcmp_dual.
+  - rewrite !vcmp_agree by assumption. apply (proj1 (icmp_T4 a b c)).
+  - rewrite !vcmp_agree by assumption. apply (proj1 (proj2 (icmp_T4 a b c))).
+  - rewrite !vcmp_agree by assumption. apply (proj1 (proj2 (proj2 (icmp_T4 a b c)))).
+  - rewrite !vcmp_agree by assumption. apply (proj2 (proj2 (proj2 (icmp_T4 a b c)))).
+  - rewrite vcmp_agree by assumption. apply icmp_Eq; assumption.
+  - rewrite vcmp_agree by assumption. apply icmp_Eq; assumption.
+  - apply vpcmp_vcmp; assumption.
+  - apply veq_hash.
+  - apply try_clone_fdfree. exact Fa.
+  - apply try_to_owned_fdfree. exact Fa.
+  - apply wfb_has_type.
+Qed.
+
+Lemma ord_consistent_partial a b : has_nan a = false -> has_nan b = false -> clash a b = false ->
+  (vcmp a b = Eq <-> veq a b = true).
+Proof. intros. rewrite vcmp_agree by assumption. apply icmp_Eq; assumption. Qed.
+
+Lemma ord_trans_partial a b c : has_nan a = false -> has_nan b = false -> has_nan c = false ->
+  clash a b = false -> clash b c = false -> clash a c = false -> T4 (vcmp a b) (vcmp b c) (vcmp a c).
+Proof. intros. rewrite !vcmp_agree by assumption. apply icmp_T4. Qed.
+
+Lemma clone_eq_partial os v k r k' : has_nan v = false -> has_fd v = false ->
+  (try_clone os v k = Ok (r, k') \/ try_to_owned os v k = Ok (r, k')) -> veq r v = true /\ r = v.
+Proof.
+  intros Hn Hf [E|E]; [rewrite try_clone_fdfree in E by assumption | rewrite try_to_owned_fdfree in E by assumption];
+    injection E as <- <-; split; [apply veq_refl; exact Hn | reflexivity | apply veq_refl; exact Hn | reflexivity].
+Qed.
+
+(* ---------------------------------------------------------------- instances (non-vacuity) ---- *)
+Example ex_hash_zero : veq nested nested' = true /\ nested <> nested' /\ vhash nested = vhash nested'.
+Proof. split; [vm_compute; reflexivity|]. split; [discriminate|]. apply veq_hash. vm_compute. reflexivity. Qed.
+
+Example ex_known_free : Known_C08 [nested; nested'; VArray SU8 []] = false /\ wfb nested = true.
+Proof. vm_compute. split; reflexivity. Qed.
+
+Example ex_clash : clash (VArray SU8 []) (VArray SBool []) = true /\ clash (VArray SU8 [VU8 1]) (VArray SU8 [VU8 2]) = false.
+Proof. vm_compute. split; reflexivity. Qed.
+
+Example ex_conv :
+  let x := XMap SStr (SArray SVariant) [(XStr (B "a"), XVec SVariant [XVal (VU8 1); XVal (VValue (VStr (B "x")))]);
+                                        (XStr (B "b"), XVec SVariant [])] in
+  wt (SDict SStr (SArray SVariant)) x = true /\ tuple_variant x = false /\
+  into_value x = VDict SStr (SArray SVariant)
+                   [(VStr (B "a"), VArray SVariant [VValue (VU8 1); VValue (VValue (VStr (B "x")))]); (VStr (B "b"), VArray SVariant [])].
+Proof. vm_compute. repeat split; reflexivity. Qed.
+
+Example ex_owned_fd : try_to_owned (fun k => Some (100 + Z.of_nat k)%Z) (VStruct [VFd false 3; VU8 1]) 0
+                      = Ok (VStruct [VFd true 100; VU8 1], 1%nat).
+Proof. reflexivity. Qed.
